@@ -478,6 +478,10 @@ impl Ignore {
                     .last()
                     .map_or(self.0.dir.as_path(), |ig| ig.0.dir.as_path());
                 let path_prefix = match strip_prefix("./", dirpath) {
+                    // `path` never starts with `./` (see `matched`), so for
+                    // the directory `.` there is nothing to strip. In
+                    // particular, not the leading dot of a hidden file.
+                    None if dirpath == Path::new(".") => Path::new(""),
                     None => dirpath,
                     Some(stripped_dot_slash) => stripped_dot_slash,
                 };
